@@ -193,11 +193,110 @@ func withHelpers(fn *ssa.Function, depth int) []*ssa.Function {
 					if g, ok := t.Fn.(*ssa.Function); ok {
 						add(g, d-1)
 					}
+				case *ssa.Global:
+					// a package-level table of functions the code dispatches through (a map or slice literal filled in by the
+					// package initialiser): its entries are helpers too
+					for _, g := range tableFunctions(t) {
+						add(g, d-1)
+					}
 				}
 			}
 		})
 	}
 	add(fn, depth)
+	return out
+}
+
+// tableFunctions: the functions a package-level variable's initialiser files in it (map values, slice or array
+// elements, struct fields of those), for a variable nothing else assigns.  Method expressions are thunks: the method
+// they wrap is returned as well.
+func tableFunctions(g *ssa.Global) []*ssa.Function {
+	if g.Pkg == nil || !isModPkg(g.Pkg.Pkg.Path()) || assignedOutsideInit(g) {
+		return nil
+	}
+	ini := g.Pkg.Func("init")
+	if ini == nil {
+		return nil
+	}
+	// values that flow into the variable: the stored value and, transitively, what is put into it
+	root := map[ssa.Value]bool{}
+	allInstrs(ini, func(in ssa.Instruction) {
+		if st, ok := in.(*ssa.Store); ok && st.Addr == ssa.Value(g) {
+			root[st.Val] = true
+		}
+	})
+	if len(root) == 0 {
+		return nil
+	}
+	for changed, round := true, 0; changed && round < 6; round++ {
+		changed = false
+		allInstrs(ini, func(in ssa.Instruction) {
+			switch t := in.(type) {
+			case *ssa.Slice:
+				if root[t] && !root[t.X] {
+					root[t.X], changed = true, true
+				}
+			case *ssa.MakeInterface:
+				if root[t] && !root[t.X] {
+					root[t.X], changed = true, true
+				}
+			}
+		})
+	}
+	var out []*ssa.Function
+	seen := map[*ssa.Function]bool{}
+	addF := func(v ssa.Value) {
+		var f *ssa.Function
+		switch t := v.(type) {
+		case *ssa.Function:
+			f = t
+		case *ssa.MakeClosure:
+			f, _ = t.Fn.(*ssa.Function)
+		case *ssa.ChangeType:
+			f, _ = t.X.(*ssa.Function)
+		}
+		if f == nil || seen[f] {
+			return
+		}
+		seen[f] = true
+		out = append(out, f)
+		if f.Synthetic != "" {
+			allInstrs(f, func(x ssa.Instruction) {
+				if c := callOf(x); c != nil && c.StaticCallee() != nil && !seen[c.StaticCallee()] {
+					seen[c.StaticCallee()] = true
+					out = append(out, c.StaticCallee())
+				}
+			})
+		}
+	}
+	under := func(addr ssa.Value) bool {
+		for i := 0; i < 6; i++ {
+			if root[addr] {
+				return true
+			}
+			switch t := addr.(type) {
+			case *ssa.IndexAddr:
+				addr = t.X
+			case *ssa.FieldAddr:
+				addr = t.X
+			default:
+				return false
+			}
+		}
+		return false
+	}
+	allInstrs(ini, func(in ssa.Instruction) {
+		switch t := in.(type) {
+		case *ssa.MapUpdate:
+			if root[t.Map] {
+				addF(t.Value)
+			}
+		case *ssa.Store:
+			if under(t.Addr) {
+				addF(t.Val)
+			}
+		}
+	})
 	return out
 }
 
